@@ -1067,6 +1067,21 @@ func (e *Exec) bootstrap(st *Step) {
 		e.viol("C08", "export.bad_json", "", "export is not a JSON object: %v", err)
 		return
 	}
+	// C11: in the exported DID registry every active entry's key equals its document id
+	var dg didtypes.GenesisState
+	if secs["did"] != "" && e.Env.Cdc.UnmarshalJSON([]byte(secs["did"]), &dg) == nil {
+		keys := make([]string, 0, len(dg.Documents))
+		for k := range dg.Documents {
+			keys = append(keys, k)
+		}
+		sort.Strings(keys)
+		for _, k := range keys {
+			if d := dg.Documents[k]; d != nil && d.Document != nil && d.Document.Id != "" && d.Document.Id != k {
+				e.viol("C11", "did.export_key_id_mismatch", "did:"+k, "genesis export lists under %s a document whose id is %s", k, d.Document.Id)
+				return
+			}
+		}
+	}
 	for _, mod := range customGenesisModules {
 		mb0, ok := app.ModuleBasics[mod]
 		if !ok || secs[mod] == "" {
